@@ -7,7 +7,7 @@
    is a correspondence-level check, not yet a theorem for all circuits. *)
 From Coq Require Import ZArith QArith Bool List.
 From PV Require Import Base.Num Base.Outcome Circuit.ElemState Circuit.Tree Circuit.Token Circuit.Parser Circuit.Parser_facts.
-From PV Require Import Circuit.Registry Circuit.Printer Circuit.Token_decode Circuit.Printer_lex Circuit.Parser_basic Circuit.Parser_mono Circuit.Token_ws Circuit.Parser_ws gen.Classes_gen.
+From PV Require Import Circuit.Registry Circuit.Printer Circuit.Token_decode Circuit.Printer_lex Circuit.Parser_basic Circuit.Parser_mono Circuit.Token_ws Circuit.Parser_ws Circuit.Parser_implicit gen.Classes_gen.
 Import ListNotations.
 
 (* A container's sub-circuit — in either written form — and a whole parameter block consume only what follows
@@ -81,6 +81,17 @@ Theorem C03_basic_whitespace_insensitive :
   exists ts, tokenize (spaced_text wits trail) = Ok ts /\ parse_tokens reg ts = Ok (top n').
 Proof. exact basic_spaced_round_trip. Qed.
 Print Assumptions C03_basic_whitespace_insensitive.
+
+(* The implicit outer series (another alternative spelling): the items of a series written without the outer brackets — "R(RC)" for
+   "[R(RC)]" — are scanned and parsed one after the other and assembled into the series of the parsed items (a single item gives what
+   the bracketed form gives).  That this tree has the impedance of the bracketed form is C03_implicit_series_same_impedance. *)
+Theorem C03_basic_implicit_outer_series :
+  forall reg, syms_valid reg = true -> syms_unique reg = true ->
+  forall pf l l', List.Forall2 (fun x x' => pnode reg pf x = Some x') l l' -> l <> [] -> (2 * pf <= depth_budget)%nat ->
+  exists ts, tokenize (concat (map item_text (flat_map (node_items pf reg) l))) = Ok ts /\
+             parse_tokens reg ts = Ok (match l' with [x'] => top x' | _ => Ser l' end).
+Proof. exact implicit_series_round_trip. Qed.
+Print Assumptions C03_basic_implicit_outer_series.
 
 (* non-vacuity: the live registry meets the hypotheses, and a nested tree over it (series in parallel in series, a nested
    same-kind connection that is merged, a one-element series that is unwrapped) has a parse result *)
